@@ -349,6 +349,8 @@ func (m *fakeMsg) Has(fd protoreflect.FieldDescriptor) bool {
 			return v.Int() != 0
 		case protoreflect.Uint32Kind, protoreflect.Uint64Kind, protoreflect.Fixed32Kind, protoreflect.Fixed64Kind:
 			return v.Uint() != 0
+		case protoreflect.FloatKind, protoreflect.DoubleKind:
+			return v.Float() != 0
 		}
 		return true
 	}
@@ -602,5 +604,7 @@ func schemaParams() *fakeMD {
 		&fakeFD{name: "bo", kind: protoreflect.BoolKind},
 		&fakeFD{name: "l", kind: protoreflect.Int64Kind},
 		&fakeFD{name: "u", kind: protoreflect.Uint32Kind},
+		&fakeFD{name: "fl", kind: protoreflect.FloatKind},
+		&fakeFD{name: "db", kind: protoreflect.DoubleKind},
 	)
 }
